@@ -12,6 +12,13 @@ def gen(rng: random.Random, tier: str):
             yield {"kind": "batch", "n_jobs": nj, "form": rng.choice(["list", "dict", "collection", "frame"]), "n_keys": rng.choice([0, 1, 3, 6, 9]), "dup": rng.random() < 0.3,
                    "op": rng.choice(["recommend", "predict", "score"]), "fail_at": rng.choice([None, None, 0, 2]), "seed": rng.randrange(10**6), "pipeline": rng.choice(["table", "iknn"])}
             yield {"kind": "invoker", "n_jobs": nj, "tasks": rng.choice([[], [3], list(range(7)), [5, 5, 1, 1, 9], list(range(20))]), "fail_at": rng.choice([None, None, 1]), "seed": rng.randrange(10**6)}
+    # directed: a failing task / key with a real process pool, and runners that carry several invocations in either order
+    top = max(jobs)
+    yield {"kind": "invoker", "n_jobs": top, "tasks": list(range(7)), "fail_at": rng.choice([0, 3, 6]), "seed": rng.randrange(10**6)}
+    yield {"kind": "batch", "n_jobs": top, "form": "dict", "n_keys": 6, "dup": False, "op": "predict", "fail_at": rng.choice([0, 2, 5]), "seed": rng.randrange(10**6), "pipeline": "table"}
+    for nj in sorted(set([1, top])):
+        for order in (["predict", "recommend"], ["recommend", "predict"], ["score", "recommend", "predict"]):
+            yield {"kind": "multi", "n_jobs": nj, "order": order, "n_keys": rng.choice([3, 5]), "seed": rng.randrange(10**6)}
 
 def _canon(il):
     return [(int(i), None if math.isnan(s) else float(s)) for i, s in zip(il.ids(), il.scores())] if len(il) else []
@@ -51,6 +58,39 @@ def run(case: dict, lean: Lean) -> Outcome:
         if not tasks: classes.append("no tasks")
         if len(tasks) > nj: classes.append("more tasks than workers")
         return Outcome(not failed, not failed, tuple(classes), {"failed": failed}, None)
+    if case["kind"] == "multi":
+        # one runner, several invocations: every output must equal the corresponding single-query operation
+        from lenskit.data import from_interactions_df, ItemList, ItemListCollection
+        from lenskit.pipeline import topn_pipeline
+        from lenskit import operations
+        from lenskit.batch import BatchPipelineRunner
+        from lkv_components import TableScorer
+        rows = [(100 + u, 1000 + i, float(rnd.choice([1, 2, 3, 4, 5]))) for u in range(9) for i in range(12) if rnd.random() < 0.5]
+        ds = from_interactions_df(pd.DataFrame(rows, columns=["user_id", "item_id", "rating"]))
+        V = [int(x) for x in ds.items.ids()]; users = [int(u) for u in ds.users.ids()]
+        base = dict(zip(V, rnd.sample([x / 4 for x in range(-20, 60)], len(V))))
+        pipe = topn_pipeline(TableScorer(base), predicts_ratings="raw", n=5); pipe.train(ds)
+        reqs = rnd.sample(users, min(case["n_keys"], len(users)))
+        test = {u: ItemList(item_ids=rnd.sample(V, 3) + [7777]) for u in reqs}
+        runner = BatchPipelineRunner(n_jobs=nj)
+        for o in case["order"]:
+            if o == "recommend": runner.recommend(n=4)
+            elif o == "predict": runner.predict()
+            else: runner.score()
+        classes += ["invocations:" + ">".join(case["order"])]
+        try:
+            res = runner.run(pipe, ItemListCollection.from_dict(test, key="user_id"))
+            for o, name in (("recommend", "recommendations"), ("predict", "predictions"), ("score", "scores")):
+                if o not in case["order"]: continue
+                out = res.output(name)
+                if [int(k.user_id) for k in out.keys()] != reqs: failed.append(f"{name}: keys differ from the request")
+                for k, il in out.items():
+                    u = int(k.user_id)
+                    want = _canon(operations.recommend(pipe, u, 4) if o == "recommend" else operations.predict(pipe, u, test[u]) if o == "predict" else operations.score(pipe, u, test[u]))
+                    if _canon(il) != want: failed.append(f"{name} for user {u} differ from the single-query operation: {_canon(il)[:4]} vs {want[:4]}")
+        except Exception as e:
+            failed.append(f"multi-invocation run raised {type(e).__name__}: {str(e)[:60]}")
+        return Outcome(not failed, not failed, tuple(classes), {"failed": failed[:6]}, None)
     from lenskit.data import from_interactions_df, ItemList, ItemListCollection
     from lenskit.pipeline import topn_pipeline
     from lenskit import batch, operations
